@@ -544,7 +544,7 @@ func maprangeMain(args []string) {
 		if i > 0 {
 			sb.WriteString(";\n")
 		}
-		fmt.Fprintf(&sb, "  (%s, %s, %s, %d%%Z, %s)", coqStr(s.file), coqStr(s.fn), coqStr(s.expr), s.ord, coqStr(s.kind))
+		fmt.Fprintf(&sb, "  (%s, %s, %s, %d%%Z, %s)", c08CoqStr(s.file), c08CoqStr(s.fn), c08CoqStr(s.expr), s.ord, c08CoqStr(s.kind))
 	}
 	sb.WriteString("].\n")
 	writeOut(args, sb.String())
